@@ -356,4 +356,21 @@ example : accepts ⟨false, none, 500000, false, false⟩
 example : burstCount 500000 true [(600000, false), (300000, true), (0, true)] = 2 := by decide
 example : burstCount 500000 true [(1200000, true), (600000, false), (300000, true)] = 1 := by decide
 
+
+/-- The hypotheses of R5 are met by a concrete Switch trace, and the theorem yields the 'off' write. -/
+def exCfg : Cfg := ⟨true, some 1000000, 0, false, false⟩
+def exTrace : List Obs :=
+  [.api true 0, .out (.bw true 0), .out (.cb (some true) 0 0), .out (.cb (some false) 0 1000000),
+   .out (.bw false 1000000), .fin 1500000]
+example : ∃ s, Accepts exCfg exTrace s ∧ s.expect = [] ∧ lastOnTime exTrace = some 0 ∧ 0 + 1000000 < s.now :=
+  ⟨_, rfl, by decide, by decide, by decide⟩
+example : Out.bw false 1000000 ∈ outsOf exTrace :=
+  switch_off_write_happens (c := exCfg) (tr := exTrace) (l := 0) (r := 1000000) rfl (s := _) rfl rfl
+    (by decide) (by decide) (by decide)
+/-- The hypotheses of the counter theorem are met: write-only history, window still open, counters 2 / 1. -/
+example : ∃ s, Accepts ⟨false, none, 500000, false, false⟩ [.tw true 0, .tw true 300000, .tw false 600000] s ∧
+    s.ctxAt.isSome = true ∧ s.cOn = 2 ∧ s.cOff = 1 ∧
+    writesOf [.tw true 0, .tw true 300000, .tw false 600000] = [(600000, false), (300000, true), (0, true)] :=
+  ⟨_, rfl, by decide, by decide, by decide, by decide⟩
+
 end XknxVerif.Props.C42
